@@ -143,6 +143,14 @@ def rule_fill_or_kill(ctx: Ctx) -> None:
         and (A.call_name(lps[0].body[0].value) or "") == "self._process_order" and not any(isinstance(a, ast.If) for a in A.ancestors(lps[0]))
     ctx.check(okb, "C05.2", "every open order of the pair is processed for the bar, unconditionally", obf, lps[0] if lps else obf.node,
               "loop body is exactly _process_order(order, ...)", "some open orders of the pair are skipped for a bar")
+    if lps:
+        gob = ctx.cfg(obf)
+        ln_ = gob.nodes_for(lps[0])[0]
+        pth_ = gob.always_followed_by(gob.entry, lambda n: n is ln_, labels=C.NO_EXC)
+        ctx.check(pth_ is None, "C05.2", "every bar of a pair reaches the matching loop", obf, lps[0], "the loop is on every normal path of on_bar_event",
+                  "on_bar_event can return before matching (e.g. for some kinds of bar): open orders are not processed on that bar, so an order "
+                  "is not filled by the first bar that allows it / a market order is not filled by the next bar", detail={"path": C.fmt_path(pth_) if pth_ else []},
+                  key_text="matching loop reached")
     # the not-filled callback fires whenever a bar produced no (complete) fill record
     po = ctx.func(f"{OM}._process_order")
     g = ctx.cfg(po)
